@@ -11,6 +11,7 @@ import (
 	"github.com/buchgr/bazel-remote/v2/cache"
 	"google.golang.org/protobuf/encoding/protojson"
 	"google.golang.org/protobuf/proto"
+	"google.golang.org/protobuf/types/known/timestamppb"
 
 	pb "github.com/buchgr/bazel-remote/v2/genproto/build/bazel/remote/execution/v2"
 )
@@ -218,8 +219,13 @@ func acScen(c *Ctx) {
 		if r.Chance(1, 3) {
 			ar.OutputSymlinks = append(ar.OutputSymlinks, &pb.OutputSymlink{Path: "out/link", Target: "f0"})
 		}
-		if r.Chance(1, 3) {
-			ar.ExecutionMetadata = &pb.ExecutedActionMetadata{Worker: []string{"", "builder-7"}[r.Intn(2)]}
+		if r.Chance(1, 2) {
+			md := &pb.ExecutedActionMetadata{Worker: []string{"", "builder-7"}[r.Intn(2)]}
+			if r.Chance(2, 3) {
+				md.QueuedTimestamp = &timestamppb.Timestamp{Seconds: 1700000000 + int64(i), Nanos: 42}
+				md.ExecutionCompletedTimestamp = &timestamppb.Timestamp{Seconds: 1700000100 + int64(i)}
+			}
+			ar.ExecutionMetadata = md
 		}
 		// one invalid field kind
 		if r.Chance(1, 4) {
